@@ -150,19 +150,13 @@ func rsCase(h *hctx, k, p int, data []byte, r *lib.RNG) {
 		h.violate("rs-encode-panics", fmt.Sprintf("EncodeData(len %d, %d, %d) panics: %v", len(data), k, p, err), rp)
 		return
 	}
-	model := h.ask(fmt.Sprintf("split %d %d %s", k, p, hx(data)))
 	impl := ""
 	if err != nil {
 		impl = classify(err, [][2]string{{"received empty data", "empty-data"}, {"creating Reed-Solomon", "rs-new"}})
 	} else {
 		impl = "ok " + hexList(enc[:k])
 	}
-	if model != "" {
-		h.res.Compared(1)
-		if !sameVerdict(model, impl) {
-			h.res.Mismatch(lib.Mismatch{Sig: "rs-split", Input: rp, Model: clip(model), Impl: clip(impl)})
-		}
-	}
+	h.check("rs-split", rp, fmt.Sprintf("split %d %d %s", k, p, hx(data)), impl, true)
 	if err != nil {
 		h.res.Hit("rs:encode-" + impl)
 		return
@@ -240,14 +234,18 @@ func rsCase(h *hctx, k, p int, data []byte, r *lib.RNG) {
 			continue
 		}
 		h.res.Hit("rs:damaged-" + kind + "-accepted")
+		if len(out) != n {
+			h.violate("rs-recover-shard-count", fmt.Sprintf("RecoverData(k=%d,p=%d) returned %d shards", k, p, len(out)), rp)
+		}
+		// informational only (the theorems do not rely on it: the Merkle root comparison pins the
+		// shards down): is the accepted result a codeword that keeps the shards given?
 		for i := range in {
 			if len(in[i]) != 0 && !bytes.Equal(in[i], out[i]) {
-				h.violate("rs-recover-changes-present-shard", fmt.Sprintf("RecoverData(k=%d,p=%d): shard %d changed", k, p, i), rp)
+				h.res.Hit("rs:damaged-accepted-but-present-shard-changed")
 			}
 		}
-		re, e2 := reedsolomon.EncodeData(bytes.Join(out[:k], nil), k, p)
-		if e2 != nil || !equalShards(re, out) {
-			h.violate("rs-recover-result-not-codeword", fmt.Sprintf("RecoverData(k=%d,p=%d) on a %s shard returns a non-codeword", k, p, kind), rp)
+		if re, e2 := reedsolomon.EncodeData(bytes.Join(out[:k], nil), k, p); e2 != nil || !equalShards(re, out) {
+			h.res.Hit("rs:damaged-accepted-non-codeword")
 		}
 	}
 }
@@ -313,8 +311,9 @@ func constructOutcome(h *hctx, units []*propeller.Unit, local, k, p int) (string
 	return "ok " + hx(msg) + " " + sh + " " + hashesHex(toHashes(proof.Siblings)), msg, nil
 }
 
-// modelConstruct asks the model with the real codec's answer for exactly these shards.
-func modelConstruct(h *hctx, units []*propeller.Unit, local, k, p int) string {
+// modelConstruct queues the model's construct with the real codec's answer for exactly these
+// shards and compares it with the implementation's outcome.
+func modelConstruct(h *hctx, sig string, input any, units []*propeller.Unit, local, k, p int, impl string) {
 	shards := make([][]byte, len(units))
 	toks := make([]string, len(units))
 	for i, u := range units {
@@ -335,19 +334,19 @@ func modelConstruct(h *hctx, units []*propeller.Unit, local, k, p int) string {
 	if out, err, _ := recoverImpl(shards, k, p); err == nil && out != nil {
 		rs = hexList(out)
 	}
-	ans := h.ask(fmt.Sprintf("construct %s %d %d %d %s %s", h.cfg, k, p, local, rs, strings.Join(toks, " ")))
-	if !strings.HasPrefix(ans, "ok ") {
-		return ans
-	}
-	f := strings.Fields(ans)
-	if len(f) != 4 {
-		return ans
-	}
-	pr, err := h.tt.evalTermList(f[3])
-	if err != nil {
-		return ans
-	}
-	return "ok " + f[1] + " " + f[2] + " " + hashesHex(pr)
+	line := fmt.Sprintf("construct %s %d %d %d %s %s", h.cfg, k, p, local, rs, strings.Join(toks, " "))
+	h.later(line, func(ans string) {
+		model := ans
+		if f := strings.Fields(ans); len(f) == 4 && f[0] == "ok" {
+			if pr, err := h.tt.evalTermList(f[3]); err == nil {
+				model = "ok " + f[1] + " " + f[2] + " " + hashesHex(pr)
+			}
+		}
+		h.res.Compared(1)
+		if !sameVerdict(model, impl) {
+			h.res.Mismatch(lib.Mismatch{Sig: sig, Input: input, Model: clip(model), Impl: clip(impl)})
+		}
+	})
 }
 
 func e2eCase(h *hctx, k, p int, msg []byte, nonce uint64, r *lib.RNG, subsetLimit int) {
@@ -458,14 +457,7 @@ func e2eCase(h *hctx, k, p int, msg []byte, nonce uint64, r *lib.RNG, subsetLimi
 		}
 		local := r.Intn(n)
 		out, got, cerr := constructOutcome(h, ptrs, local, k, p)
-		model := modelConstruct(h, ptrs, local, k, p)
-		if model != "" {
-			h.res.Compared(1)
-			if !sameVerdict(model, out) {
-				h.res.Mismatch(lib.Mismatch{Sig: "construct", Input: rp(map[string]any{"present": fmt.Sprintf("%b", mask), "local": local}),
-					Model: clip(model), Impl: clip(out)})
-			}
-		}
+		modelConstruct(h, "construct", rp(map[string]any{"present": fmt.Sprintf("%b", mask), "local": local}), ptrs, local, k, p, out)
 		rpm := rp(map[string]any{"present_mask": fmt.Sprintf("%0*b", n, mask), "local": local})
 		switch {
 		case present >= k && mask&1 == 0:
@@ -528,14 +520,7 @@ func e2eCase(h *hctx, k, p int, msg []byte, nonce uint64, r *lib.RNG, subsetLimi
 		}
 		local := r.Intn(n)
 		out, got, cerr := constructOutcome(h, ptrs, local, k, p)
-		model := modelConstruct(h, ptrs, local, k, p)
-		if model != "" {
-			h.res.Compared(1)
-			if !sameVerdict(model, out) {
-				h.res.Mismatch(lib.Mismatch{Sig: "construct-damaged", Input: rp(map[string]any{"present": fmt.Sprintf("%b", mask), "damage": kind, "unit": j}),
-					Model: clip(model), Impl: clip(out)})
-			}
-		}
+		modelConstruct(h, "construct-damaged", rp(map[string]any{"present": fmt.Sprintf("%b", mask), "damage": kind, "unit": j}), ptrs, local, k, p, out)
 		h.res.Hit("construct-damaged:" + kind + ":" + outcomeTag(out))
 		rpm := rp(map[string]any{"present_mask": fmt.Sprintf("%0*b", n, mask&(1<<uint(n)-1)), "damage": kind, "unit": j})
 		switch {
@@ -565,8 +550,8 @@ func secE2E(h *hctx, r *lib.RNG) {
 		if k > 2 {
 			lens = append(lens, k-1, k, k+1)
 		}
-		if ci%4 == 0 || h.f.Thorough() {
-			lens = append(lens, 16382, 16383, 16384)
+		if ci%6 == 1 || h.f.Thorough() { // 3-byte varint prefix: a few configurations are enough
+			lens = append(lens, 16383, 16384)
 		}
 		seen := map[int]bool{}
 		for _, l := range lens {
@@ -576,7 +561,7 @@ func secE2E(h *hctx, r *lib.RNG) {
 			seen[l] = true
 			limit := h.f.Scale(1024, 8192)
 			if l > 1000 {
-				limit = h.f.Scale(48, 512)
+				limit = h.f.Scale(10, 256)
 			} else if c.k+c.p > 8 && l > 2*k+1 {
 				limit = h.f.Scale(200, 8192)
 			}
